@@ -147,6 +147,12 @@ class GateReader(PyReader):
             self.fail(n, f"isinstance of {type(v).__name__}")
         return any(x in cs for x in names)
 
+    def store_attr(self, base, attr, value, n) -> bool:
+        if isinstance(base, Obj):
+            base.attrs[attr] = value
+            return True
+        return False
+
     # ---- hooks
     def global_value(self, n: ast.AST):
         d = dotted(n)
@@ -259,6 +265,13 @@ class GateReader(PyReader):
             if isinstance(v, Fac):
                 return [v, Dim()]
             raise Raised("ValueError", getattr(n, "lineno", 0))
+        if name == "Dimension" and len(n.args) == 1 and name not in self.functions:
+            v = self.ev(n.args[0], env, fns)
+            if isinstance(v, Dim):
+                return v
+            if v == 1 or (isinstance(v, T) and v.op == "num" and v.val == 1):
+                return Dim()
+            self.fail(n, "Dimension(...) of something other than 1 or a dimension")
         if name in ("print_dimension", "str", "repr"):
             return "str"
         return NotImplemented
